@@ -359,7 +359,7 @@ theorem inv_step (s s' : St) (l : Label) (h : step s l = some s') (hi : Inv s) :
         have e : (KPhase.finishing == KPhase.sent) = false := by decide
         rw [e]; simp [wireScan_apps]
       · show inKexAfter false (s.wire ++ s.pending.map (fun p => Item.app p.1 p.2)) = _
-        rw [inKexAfter_append, inKexAfter_apps, h2, hk]; decide
+        rw [inKexAfter_append, inKexAfter_apps, h2, hk]; rfl
       · intro v
         have := h6 v
         simp only [onWire_append, onWire_apps]
